@@ -268,7 +268,18 @@ func cmdRun(args []string) int {
 
 	// 2. real code
 	outs := make([]Outcome, len(cases))
-	parallelFor(len(cases), func(i int) { outs[i] = safeExec(p, cases[i]) })
+	if dbg := os.Getenv("VERIF_DEBUG"); dbg != "" {
+		// sequential, logging each case before it runs (to find a case that kills the process)
+		f, _ := os.Create(dbg)
+		for i := range cases {
+			fmt.Fprintf(f, "%d %s\n", i, caseLine(p, cases[i]))
+			f.Sync()
+			outs[i] = safeExec(p, cases[i])
+		}
+		f.Close()
+	} else {
+		parallelFor(len(cases), func(i int) { outs[i] = safeExec(p, cases[i]) })
+	}
 
 	// 3. model
 	var lines []string
